@@ -28,6 +28,44 @@ def starts_slash(t):
     return t is not None and t.startswith('/') and not is_comment(t)
 
 
+NOT_AN_OPERAND_END = set(BINARY_OPS) | {';', '{', '(', '[', ':', '!', '~', '++', '--', 'else', 'do', 'return', 'typeof', 'in', 'new',
+                                         'delete', 'void', 'throw', 'case', 'var', 'default', 'try', 'finally'}
+
+
+def _postfix_possible(tokens, i):
+    """KF-04c (no restricted production for postfix ++ / --) needs an operand in front of the line terminator at index i: the
+    previous significant token ends a LeftHandSideExpression.  After `;`, `{`, an operator, `else` / `do` / … or the `)` that closes
+    an if / while / for / with HEADER the `++` can only be a prefix operator, and calmjs reads it so: such inputs are judged."""
+    k = i - 1
+    while k >= 0 and (is_lt(tokens[k]) or is_comment(tokens[k])):
+        k -= 1
+    if k < 0:
+        return False
+    prev = tokens[k]
+    if prev in NOT_AN_OPERAND_END:
+        return False
+    if prev == ')':
+        depth = 0
+        while k >= 0:
+            if tokens[k] == ')':
+                depth += 1
+            elif tokens[k] == '(':
+                depth -= 1
+                if depth == 0:
+                    break
+            k -= 1
+        q = k - 1
+        while q >= 0 and (is_lt(tokens[q]) or is_comment(tokens[q])):
+            q -= 1
+        if q >= 0 and tokens[q] in HEADER_KW:
+            r = q - 1
+            while r >= 0 and (is_lt(tokens[r]) or is_comment(tokens[r])):
+                r -= 1
+            if not (r >= 0 and tokens[r] == '.'):
+                return False
+    return True
+
+
 def classes(tokens):
     """set of KF ids whose structural pattern occurs in the token list"""
     out = set()
@@ -51,7 +89,7 @@ def classes(tokens):
             proper = nsig is not None and IDENT.match(nsig) and n2 == '(' and nxt == nsig
             if not proper:
                 out.add('KF-03b')
-        if is_lt(t) and nsig in ('++', '--'):
+        if is_lt(t) and nsig in ('++', '--') and _postfix_possible(tokens, i):
             out.add('KF-04c')
         if t in RESTRICTED and nxt is not None and is_lt(nxt):
             if nsig in (';', ':') or prv in ('get', 'set'):
